@@ -144,7 +144,12 @@ func runScenarios(tier string, noBlocked bool) []*Scenario {
 	}
 	scs = append(scs, hangScenarios()...)
 	var out []*Scenario
+	seen := map[string]bool{}
 	for _, s := range scs {
+		if seen[s.Name] {
+			continue // the same program x vector reached through two scenario families
+		}
+		seen[s.Name] = true
 		s.Ref = evalProgram(s.Prog, s.Script, s.Input)
 		if noBlocked && ((s.Ref.ResultID == "" && !s.Ref.ResultErr) || s.Ref.MayHang) {
 			continue // the run legitimately waits for a never-ending step; covered by the cancel driver
